@@ -117,6 +117,12 @@ def programs(tier):
             out += [("matvec", Am, v), ("matvec", Am, v, "func"), ("matvec", Am, ("vbin", "+", v, w), "func"), ("vsum", ("matvec", Am, v)), ("velem", ("matvec", Am, v), r - 1)]
             if r == n:
                 out.append(("dot", w, ("matvec", Am, v)))
+                out.append(("dot", v, ("matvec", Am, v)))
+                if n >= 2:
+                    # the quadratic-form pattern x.dot(Q @ y) with y another view of the same vector (names collide)
+                    out += [("dot", ("slice", v, 0, n, None), ("matvec", Am, ("slice", v, None, None, -1))),
+                            ("dot", ("slice", v, None, None, -1), ("matvec", Am, v)),
+                            ("dot", ("slice", v, 0, n, None), ("matvec", Am, ("slice", v, 0, n, None)))]
     shapes = [(1, 1), (2, 2), (2, 3), (3, 3), (3, 1)] if tier == "quick" else [(1, 1), (2, 2), (2, 3), (3, 3), (3, 1), (4, 3)]
     for (r, c) in shapes:
         A, B = ("mat", "A", r, c), ("mat", "B", r, c)
@@ -137,6 +143,11 @@ def programs(tier):
         out += [("melem", A, -1, -1), ("melem", ("mT", A), c - 1, 0), ("fro", A), ("fro", ("mT", A)), ("mrow", ("mslice", A, (None, None, -1), (None, None, None)), 0),
                 ("slice", ("mrow", A, 0), None, None, -1), ("vsum", ("mcol", A, 0))]
         a2 = ("arr2", [[S(f"a{i}{j}") for j in range(c)] for i in range(r)])
+        l2 = ("lst2", [[S(f"a{i}{j}") for j in range(c)] for i in range(r)])
+        for op in ("+", "-", "*", "/"):
+            # nested Python lists on either side of a matrix operator
+            for W in (l2,):
+                out += [("mbin", op, A, W), ("mrbin", op, W, A), ("mrbin", op, W, ("mbin", "*", A, ("sc", 2.0))), ("msum", ("mrbin", op, W, A))]
         for op in ("+", "-", "*", "/", "**"):
             for W in (B, ("sc", S("c")), ("sc", 2), a2, ("mbin", "+", B, ("sc", 1.0)), ("mT", ("mat", "Ct", c, r))):
                 if op == "**" and W[0] != "sc":
@@ -157,6 +168,16 @@ def programs(tier):
             out += [("trace", A), ("trace", A, "func"), ("mdiag", A), ("mdiag", A, "func"), ("mdiag", ("mT", A)), ("trace", ("mT", A)),
                     Sm, ("mT", Sm), ("mrow", Sm, r - 1), ("mcol", Sm, 0), ("mdiag", Sm), ("msum", Sm), ("fro", Sm), ("trace", Sm),
                     ("mbin", "-", Sm, ("mT", Sm)), ("Mmatvec", Sm, ("vec", "v", r)), ("mslice", Sm, (None, None, -1), (None, None, None))]
+            # every sub-matrix view of the symmetric matrix, its transpose, sums, products
+            for rs in ((None, None, None), (0, 2, None), (None, None, -1), (1, None, None), (None, None, 2)):
+                for cs in ((None, None, None), (0, 2, None), (None, None, -1), (1, None, None), (None, None, -2)):
+                    nr, nc = len(range(r)[slice(*rs)]), len(range(r)[slice(*cs)])
+                    if nr and nc:
+                        vw = ("mslice", Sm, rs, cs)
+                        out += [vw, ("mT", vw), ("msum", vw), ("fro", ("mT", vw)), ("mbin", "+", ("mT", vw), ("sc", 1.0)),
+                                ("Mmatvec", ("mT", vw), ("vec", "v", nr)), ("mrow", ("mT", vw), 0), ("mT", ("mT", vw))]
+                        if nr == nc:
+                            out += [("trace", vw), ("mdiag", ("mT", vw)), ("mbin", "-", vw, ("mT", vw))]
     seen, uniq = set(), []
     for r_ in out:
         k = repr(r_)
@@ -209,7 +230,7 @@ class NpRef:
             return cval(r[1], self.val)
         if r[0] in ("arr", "lst"):
             return carr(r[1], self.val)
-        if r[0] == "arr2":
+        if r[0] in ("arr2", "lst2"):
             return carr2(r[1], self.val)
         return self.go(r)
 
@@ -339,6 +360,11 @@ def check_program(recipe, planted=False):
         what = f"evaluate {repr(recipe)[:110]}"
         if isinstance(got, SymbolicConcretisation):
             res.append(harness_error(f"concretisation: {got}", item=repr(recipe)))
+            continue
+        if isinstance(got, Exception) and type(got).__name__ == "InvalidOperationError" and "lst2" in repr(recipe):
+            # a nested Python list is not one of the operand kinds the property lists (scalars and arrays):
+            # an explicit rejection is not a silent wrong value
+            res.append(dict(status="conformance", what=f"operand kind rejected explicitly (nested list): {repr(recipe)[:80]}", points=0))
             continue
         if isinstance(got, Exception):
             res.append(violation(f"C11|raises:{type(got).__name__}|{shp}", f"{what} raises {type(got).__name__}: {str(got)[:100]}", dict(payload, kind="raises")))
